@@ -79,3 +79,65 @@ Print Assumptions C16_aggregation_ilog2_defined.
 Theorem C16_chunk_size_nonzero : MAX_BATCH = 256 /\ 0 < MAX_BATCH.
 Proof. unfold MAX_BATCH. split; [reflexivity|lia]. Qed.
 Print Assumptions C16_chunk_size_nonzero.
+
+From BP Require Import Model.Checked Model.CheckedTop Proofs.CheckedP Proofs.CheckedTopP.
+
+(** THE PROPERTY ON THE CHECKED MODEL.  [verify_chunk_chk] (Model/CheckedTop.v, Model/Checked.v) is RangeProof::verify
+    with every partial machine operation explicit and three outcomes: value, error, PANIC.  A panic is produced by
+    usize arithmetic outside the checked_* calls ((j - 1) * bit_length + i, i - j, rounds - log_i - 1, 1 << log_i),
+    by ilog2 of 0, and by the back end's two length assertions on the final product; `.get(..).ok_or(..)?` exits are errors.
+    For statements as the validating constructors make them ([ctor_ok]: one promise per commitment, one blinding
+    generator per extension degree, one round challenge per zipped L/R pair) and ARBITRARY proofs (any number of
+    rounds, any tag, any scalars), weights, modes and chunk shapes, the outcome is never a panic: it is exactly the
+    verdict of the total model [verify_chunk] that the correspondence check runs against the code. *)
+Theorem C16_verify_chunk_checked_is_total_model : forall (K : Fld) (ofN : N -> K) mode (ms : list (member K)) (ws : list K) z,
+  Forall (ctor_ok K) ms ->
+  verify_chunk_chk K ofN mode ms ws z = lift (fst (verify_chunk K ofN mode ms ws z)).
+Proof. exact verify_chunk_chk_ok. Qed.
+Print Assumptions C16_verify_chunk_checked_is_total_model.
+
+(** ... and whole batches: the three shape refusals, slice::chunks (a panic for a chunk size of zero) and the chunks in order *)
+Theorem C16_verify_batch_checked_is_total_model : forall (K : Fld) (ofN : N -> K) mode ns np nt (ms : list (member K)) orc,
+  Forall (ctor_ok K) ms ->
+  verify_batch_chk K ofN mode ns np nt ms orc = lift (verify_batch K ofN mode ns np nt ms orc).
+Proof. exact verify_batch_chk_ok. Qed.
+Print Assumptions C16_verify_batch_checked_is_total_model.
+
+Theorem C16_verify_batch_never_panics : forall (K : Fld) (ofN : N -> K) mode ns np nt (ms : list (member K)) orc,
+  Forall (ctor_ok K) ms -> verify_batch_chk K ofN mode ns np nt ms orc <> Panic.
+Proof. exact verify_batch_never_panics. Qed.
+Print Assumptions C16_verify_batch_never_panics.
+
+Theorem C16_verify_chunk_never_panics : forall (K : Fld) (ofN : N -> K) mode (ms : list (member K)) (ws : list K) z,
+  Forall (ctor_ok K) ms -> verify_chunk_chk K ofN mode ms ws z <> Panic.
+Proof. exact verify_chunk_never_panics. Qed.
+Print Assumptions C16_verify_chunk_never_panics.
+
+(** the per-proof body alone: after the round-count guard (2^rounds = bits * m, rounds < 64) every index is in range,
+    no subtraction underflows, no shift overflows, ilog2 is defined — no panic and no `SizeOverflow` error exit —
+    and the scalars are those of the total model *)
+Theorem C16_proof_body_checked : forall (K : Fld) bits m promises (pf : vproof K) (ch : chals K) (w : K),
+  m = length promises -> length (c_es ch) < 64 -> (length promises * bits)%nat = 2 ^ length (c_es ch) ->
+  proof_terms_chk K bits m promises pf ch w = Val (proof_terms K bits promises pf ch w).
+Proof. exact proof_terms_chk_ok. Qed.
+Print Assumptions C16_proof_body_checked.
+
+(** non-vacuity, computed over the rationals: a zero-round member passes; the same member with a SURPLUS promise
+    (possible only by writing the statement's public fields, never through RangeStatement::init) makes the back end's
+    dynamic-length assertion fire — the checked model can panic, and [ctor_ok] is what excludes it *)
+From Coq Require Import QArith Qcanon.
+From BP Require Import Base.QcInst.
+Definition xofN (n : N) : Qc := q (Z.of_N n).
+Definition xmb (promises : list (option N)) : member QcF :=
+  mkMember QcF 1 1 1 7%N [8%N] 0%N [9%N] promises false (mkProof 1%N [3%N] 10%N 11%N 12%N 4%N 5%N [] []) false
+           (mkChals QcF (q 3) (q 5) [] (q 7)) (fun _ _ _ => 0%Qc).
+Example C16_ex_well_formed_member_runs :
+  verify_chunk_chk QcF xofN VerifyOnly [xmb [None]] [q 2] true = Val [None] /\ ctor_ok QcF (xmb [None]).
+Proof. split; [vm_compute; reflexivity|repeat split]. Qed.
+Example C16_ex_surplus_promise_panics : verify_chunk_chk QcF xofN VerifyOnly [xmb [None; None]] [q 2] true = Panic.
+Proof. vm_compute. reflexivity. Qed.
+Example C16_ex_rounds_mismatch_is_an_error :
+  verify_chunk_chk QcF xofN VerifyOnly
+    [mkMember QcF 1 1 1 7%N [8%N] 0%N [9%N] [None] false (mkProof 1%N [3%N] 10%N 11%N 12%N 4%N 5%N [13%N] [14%N]) false
+              (mkChals QcF (q 3) (q 5) [q 11] (q 7)) (fun _ _ _ => 0%Qc)] [q 2] true = Fail.
+Proof. vm_compute. reflexivity. Qed.
